@@ -39,6 +39,7 @@ def _gate_classes(repo):
 
 def run(ctx):
     repo = ctx.repo
+    _integers_not_narrowed(ctx, repo)
     _sibling_constructions(ctx, repo)
     _common_unit(ctx, repo)
     _stripped_tags(ctx, repo)
@@ -1774,3 +1775,60 @@ def _sweep_subclass_shadowing(ctx, repo, rid='C16.v', prefixes=('cirq-google/cir
                            f'for {sub.name}', m.rel, tested[base.qual].lineno)
     if n == 0:
         raise AnalysisError(f'{rid}: no isinstance test on such a sweep class found under {prefixes}')
+
+
+NARROW_FIELD_EXEMPT = {
+    ('cirq_google.serialization.arg_func_langs', 'float_arg_to_proto'): 'FloatArg has no wider numeric field; the function is documented for float arguments (angles, exponents) only',
+}
+
+
+def _integers_not_narrowed(ctx, repo, rid='C16.w'):
+    """An integer is written into a float32 proto field only behind a test that float32 holds it exactly."""
+    from ..flow import dominating_atoms
+    ctx.decided.append(f'{rid} a value that may be an integer reaches a float32 field (`float_value`) only under a float32 exactness test (or the integer case is taken by an earlier branch)')
+    ctx.rule(rid, 'integers are not rounded: a store into a `float_value` field (float32 in the schema) whose dominating type tests admit integers (int / np.integer / numbers.Integral, '
+             'directly or through a module constant such as FLOAT_TYPES) is dominated by a test mentioning float32, or an earlier branch has taken the integers - a bitmask or '
+             'count above 2**24 otherwise comes back as a different integer (16777217 -> 16777216), which is a different classical control, not a rounding', floor=3, style='RG')
+    INTLIKE = {'int', 'np.integer', 'numpy.integer', 'numbers.Integral', 'numbers.Real', 'numbers.Number'}
+    n = 0
+    for m in sorted(repo.modules.values(), key=lambda x: x.rel):
+        if not m.rel.startswith('cirq-google/cirq_google/') or m.rel.endswith('_test.py') or '_pb2' in m.rel:
+            continue
+        consts = {}
+        for st in m.tree.body:
+            if isinstance(st, ast.Assign) and len(st.targets) == 1 and isinstance(st.targets[0], ast.Name) and isinstance(st.value, ast.Tuple):
+                consts[st.targets[0].id] = {ast.unparse(e) for e in st.value.elts}
+        par = None
+        for fn in [f for f in ast.walk(m.tree) if isinstance(f, ast.FunctionDef)]:
+            for st in ast.walk(fn):
+                if not (isinstance(st, ast.Assign) and len(st.targets) == 1 and isinstance(st.targets[0], ast.Attribute) and st.targets[0].attr == 'float_value'):
+                    continue
+                if par is None:
+                    par = m.parents()
+
+                def types_of(call):
+                    t = call.args[1]
+                    els = t.elts if isinstance(t, ast.Tuple) else [t]
+                    out = set()
+                    for e in els:
+                        s_ = ast.unparse(e)
+                        out |= consts.get(s_, {s_})
+                    return out
+                admits, excluded, exact = False, False, False
+                for a, pol in dominating_atoms(par, st, fn):
+                    txt = ast.unparse(a)
+                    if 'float32' in txt:
+                        exact = True
+                    if isinstance(a, ast.Call) and call_name(a) == 'isinstance' and len(a.args) == 2:
+                        ts = types_of(a)
+                        if pol and ts & INTLIKE:
+                            admits = True
+                        if not pol and ts & {'int', 'numbers.Integral', 'np.integer', 'numpy.integer'}:
+                            excluded = True
+                n += 1
+                key = (m.name, fn.name)
+                ok = (not admits) or excluded or exact or key in NARROW_FIELD_EXEMPT
+                ctx.ob(rid, f'{m.name}.{fn.name}:float_value@{st.lineno - fn.lineno}', ok, '' if ok else
+                       f'`{ast.unparse(st)}` can receive an integer (the dominating type test admits one) and nothing tests that float32 holds it exactly', m.rel, st.lineno)
+    if n == 0:
+        raise AnalysisError(f'{rid}: no store into a float_value field found')
